@@ -88,6 +88,10 @@ template class GeometryKernel<V3, TopologyKernel>;
 template class GeometryKernel<V3, TetrahedralMeshTopologyKernel>;
 template class GeometryKernel<V3, HexahedralMeshTopologyKernel>;
 template class TetrahedralGeometryKernel<V3, TetrahedralMeshTopologyKernel>;
+template class BaseIterator<VertexHandle>;
+template class BaseIterator<HalfFaceHandle>;
+template class BaseCirculator<VertexHandle, VertexHandle>;
+template class BaseCirculator<CellHandle, HalfFaceHandle>;
 template class PropertyStorageT<int>;
 template class PropertyStorageT<double>;
 template class PropertyStorageT<std::string>;
@@ -441,6 +445,13 @@ class Analyser:
         self.notes = set()
 
     # ---- summaries of functions we have no body for
+    def live_targets(self, targets, caller):
+        """instantiated functions only -- uninstantiated patterns are never executed (they are
+        analysed as table entries of their own, and called from other patterns)"""
+        if caller.dependent:
+            return sorted(targets)
+        return sorted(t for t in targets if not getattr(self.ix.definition(t), "dependent", False))
+
     def summary(self, canon):
         s = self.sum.get(canon)
         if s is not None:
@@ -459,7 +470,7 @@ class Analyser:
         return s
 
     def run(self):
-        todo = [c for c in self.ix.groups if (lambda f: f is not None and f.body is not None and not f.nested and not f.dependent)(self.ix.definition(c))]
+        todo = [c for c in self.ix.groups if (lambda f: f is not None and f.body is not None and not f.nested)(self.ix.definition(c))]
         self.analysed = set(todo)
         for c in todo:
             self.sum[c] = Summary()
@@ -765,14 +776,14 @@ class FuncPass:
         targets, name, obj, arrow, args, inovm = self.callee_info(e)
         q = qt(e)
         byval = e.get("valueCategory") == "prvalue" and not is_ptr_type(q)
+        if byval:
+            return LOCAL          # a temporary; what an iterator temporary points into is indirect_class's business
         objc = None
         if obj is not None:
             objc = self.pclass(obj) if arrow else self.lclass(obj)
         if inovm:
-            if byval:
-                return LOCAL
             out = LOCAL
-            for t in targets:
+            for t in self.an.live_targets(targets, self.f):
                 for a in self.an.summary(t).exposes:
                     if a == "this":
                         out |= objc if objc is not None else EXT
@@ -805,7 +816,7 @@ class FuncPass:
             self.s.shared["indirect call %s" % name] = self.site(e)
             targets, inovm = None, False
         if inovm:
-            for t in sorted(targets):
+            for t in self.an.live_targets(targets, self.f):
                 sm = self.an.summary(t)
                 tf = self.ix.definition(t)
                 if tf is not None and tf.nested:
@@ -845,7 +856,11 @@ class FuncPass:
         cname = short_record_name(qt(e))
         args = kids(e)
         if cname in self.ix.rec_names:
-            for t in sorted(self.ix.ctors.get(cname, ())):
+            cands = self.an.live_targets(self.ix.ctors.get(cname, ()), self.f)
+            ct = (e.get("ctorType") or {}).get("qualType")
+            exact = [t for t in cands if self.ix.definition(t).qual == ct]
+            arity = [t for t in cands if len(self.ix.definition(t).params) == len(args)]
+            for t in (exact or arity or cands):
                 sm = self.an.summary(t)
                 tf = self.ix.definition(t)
                 if tf is not None and tf.nested:
@@ -1021,9 +1036,17 @@ def build_table(ix, an):
             return "api"
         return None
 
+    alias = {}
+    for fo in ix.funcs.values():
+        c = ix.funcs.get(fo.canon)
+        if c is not None:
+            alias[(re.sub(r"<.*>", "", fo.name), fo.file, fo.line)] = (c.file, c.line)
+
     def key_of(f):
         c = ix.funcs.get(f.canon, f)
-        return (ix.rec_name(f), f.name, rel(c.file), c.line)
+        nm = re.sub(r"<.*>$", "", f.name) if f.kind == "CXXConstructorDecl" else f.name
+        fl = alias.get((re.sub(r"<.*>", "", f.name), c.file, c.line), (c.file, c.line))
+        return (ix.rec_name(f), nm, rel(fl[0]), fl[1])
 
     for canon, fs in ix.groups.items():
         f = ix.definition(canon)
@@ -1041,17 +1064,18 @@ def build_table(ix, an):
                 continue
             continue
         k = key_of(f)
-        if f.dependent:
-            entries.setdefault(k, dict(cls=k[0], name=k[1], sig=f.qual, const=f.const, kind=sc, reasons={}, n_inst=0,
-                                       file=k[2], line=k[3]))
-            continue
         s = an.sum.get(canon)
         if s is None:
             raise T5Error("no summary for in-scope function " + ix.qname(f))
         e = entries.setdefault(k, dict(cls=k[0], name=k[1], sig=f.qual, const=f.const, kind=sc, reasons={}, n_inst=0,
                                        file=k[2], line=k[3]))
+        if f.dependent:
+            e["n_pat"] = e.get("n_pat", 0) + 1
+            e["pat_reasons"] = dict(s.shared)
+            e["sig"] = f.qual
+            continue
         e["n_inst"] += 1
-        if len(f.qual) < len(e["sig"]) or e["n_inst"] == 1:
+        if e["n_inst"] == 1 and not e.get("n_pat"):
             e["sig"] = f.qual
         for r, site in s.shared.items():
             e["reasons"].setdefault(r, site)
@@ -1062,7 +1086,10 @@ def build_table(ix, an):
     out = []
     for k, e in sorted(entries.items(), key=lambda kv: (kv[0][0], kv[0][1], kv[0][2], kv[0][3] or 0)):
         if e["n_inst"] == 0:
-            e["reasons"]["template never instantiated in the probe TU (add an instantiation to tools/t5_footprint.py)"] = "%s:%s" % (e["file"], e["line"])
+            # never instantiated in the probe TU: the (dependent) pattern body itself was analysed;
+            # everything unresolved in it counted as non-local
+            for r, site in e.get("pat_reasons", {}).items():
+                e["reasons"].setdefault("[uninstantiated template] " + r, site)
         direct = {r: s for r, s in e["reasons"].items() if not r.startswith("calls ")}
         e["writesShared"] = bool(e["reasons"])
         e["direct"] = bool(direct)
@@ -1071,3 +1098,97 @@ def build_table(ix, an):
         e["via"] = "; ".join("%s @ %s" % (r, s) for r, s in rs[:3])
         out.append(e)
     return out
+
+
+# ------------------------------------------------------------------------------- output
+def lean_str(s):
+    return '"' + s.replace("\\", "\\\\").replace('"', '\\"').replace("\n", " ") + '"'
+
+
+CHUNK = 64
+
+
+def emit_lean(table, muts, casts, statics, srcs, rounds):
+    L = []
+    L.append("/-  GENERATED by tools/t5_footprint.py from the OpenVolumeMesh sources -- do not edit.")
+    L.append("    Conservative syntactic write-footprint of the const API (property C20).")
+    L.append("    %d entries; probe TU = %d library TUs; effect fixpoint in %d rounds. -/" % (len(table), len(srcs), rounds))
+    L.append("import OVM.Conc.Footprint")
+    L.append("")
+    L.append("namespace OVM.Gen")
+    L.append("open OVM.Conc (Footprint)")
+    L.append("")
+    chunks = [table[i:i + CHUNK] for i in range(0, len(table), CHUNK)] or [[]]
+    for ci, ch in enumerate(chunks):
+        L.append("def constAPI_%d : List Footprint := [" % ci)
+        rows = []
+        for e in ch:
+            rows.append("  { cls := %s, name := %s, sig := %s, isConst := %s, writesShared := %s, excluded := %s,\n    via := %s }" % (
+                lean_str(e["cls"]), lean_str(e["name"]), lean_str(e["sig"]), "true" if e["const"] else "false",
+                "true" if e["writesShared"] else "false", "true" if e["excluded"] else "false", lean_str(e["via"])))
+        L.append(",\n".join(rows))
+        L.append("]")
+        L.append("")
+    L.append("/-- the table in chunks of %d (one kernel `decide` per chunk in Props/C20) -/" % CHUNK)
+    L.append("def constAPIChunks : List (List Footprint) := [%s]" % ", ".join("constAPI_%d" % i for i in range(len(chunks))))
+    L.append("")
+    L.append("/-- every const member function (and every iterator/circulator member) in scope -/")
+    L.append("def constAPI : List Footprint := constAPIChunks.flatten")
+    L.append("")
+    for nm, lst, doc in (("mutableFields", muts, "every `mutable` field in the scanned TUs"),
+                         ("constCastSites", casts, "every const_cast in the scanned TUs"),
+                         ("nonConstStatics", statics, "every non-const variable with static storage in the scanned TUs")):
+        L.append("/-- %s -/" % doc)
+        L.append("def %s : List String := [%s]" % (nm, ", ".join(lean_str(x) for x in lst)))
+        L.append("")
+    L.append("def scannedTUs : List String := [%s]" % ", ".join(lean_str(rel(x)) for x in srcs))
+    L.append("")
+    L.append("end OVM.Gen")
+    return "\n".join(L) + "\n"
+
+
+def generate():
+    """-> dict(table, mutable, const_casts, statics, srcs, rounds, notes); raises T5Error"""
+    docs, srcs = dump_ast()
+    ix = Index(docs)
+    for need in ("TopologyKernel", "ResourceManager", "GeometryKernel", "TetrahedralMeshTopologyKernel",
+                 "HexahedralMeshTopologyKernel", "PropertyStoragePtr", "PropertyPtr", "BaseIterator", "BaseCirculator"):
+        if need not in ix.rec_names:
+            raise T5Error("class %s not found in the AST dump" % need)
+    an = Analyser(ix)
+    rounds = an.run()
+    table = build_table(ix, an)
+    if len(table) < 100:
+        raise T5Error("only %d const API entries extracted" % len(table))
+    per_cls = {}
+    for e in table:
+        per_cls[e["cls"]] = per_cls.get(e["cls"], 0) + 1
+    for need, least in (("TopologyKernel", 100), ("ResourceManager", 20), ("GeometryKernel", 5),
+                        ("HexahedralMeshTopologyKernel", 5), ("TetrahedralMeshTopologyKernel", 3), ("PropertyStoragePtr", 8)):
+        if per_cls.get(need, 0) < least:
+            raise T5Error("only %d entries for class %s (expected >= %d): extraction is broken" % (per_cls.get(need, 0), need, least))
+    muts, casts, statics = collect_lists(docs, ix)
+    return dict(table=table, mutable=muts, const_casts=casts, statics=statics, srcs=[rel(s) for s in srcs], rounds=rounds,
+                notes=sorted(an.notes), per_class=per_cls)
+
+
+def t5():
+    """gen callable for proof.proof_stage: regenerate lean/OVM/Gen/ConstFootprint.lean"""
+    res = generate()
+    write_if_changed(OUT_LEAN, emit_lean(res["table"], res["mutable"], res["const_casts"], res["statics"], res["srcs"], res["rounds"]))
+    (WORK / "footprint.json").write_text(json.dumps(
+        {k: v for k, v in res.items()}, indent=1, default=lambda o: sorted(o) if isinstance(o, (set, frozenset)) else str(o)))
+    return res
+
+
+if __name__ == "__main__":
+    r = t5()
+    bad = [e for e in r["table"] if e["writesShared"]]
+    print("T5: %d entries (%d flagged, %d of them excluded), %d mutable fields, %d const_casts, %d non-const statics, repo=%s" % (
+        len(r["table"]), len(bad), len([e for e in bad if e["excluded"]]), len(r["mutable"]), len(r["const_casts"]),
+        len(r["statics"]), REPO))
+    for e in bad:
+        if not e["excluded"] or "-v" in sys.argv:
+            print("  %s %s::%s %s  <- %s" % ("EXCL" if e["excluded"] else "FLAG", e["cls"], e["name"], e["sig"], e["via"][:300]))
+    for n in r["notes"]:
+        print("  note:", n)
